@@ -691,6 +691,11 @@ pub fn cli_jobs(doc: &[u8], pool: &SrcPool, roles: &[&str]) -> Vec<Value> {
         files.push(json!(["doc.yml", content]));
         vec!["scan", "-r", "doc.yml", "src"]
       }
+      // the same rule file against standard input (`scan --stdin` has its own worker)
+      "rule-stdin" => {
+        files.push(json!(["doc.yml", content]));
+        vec!["scan", "--stdin", "-r", "doc.yml"]
+      }
       "util" => {
         files.push(json!(["sgconfig.yml", "ruleDirs: [rules]\nutilDirs: [utils]\n"]));
         files.push(json!(["utils/doc.yml", content]));
@@ -709,6 +714,10 @@ pub fn cli_jobs(doc: &[u8], pool: &SrcPool, roles: &[&str]) -> Vec<Value> {
         vec!["scan", "-c", "sgconfig.yml", "src"]
       }
     };
+    if *role == "rule-stdin" {
+      jobs.push(json!({"k": "cli", "role": role, "files": files, "args": args, "stdin": "let a = foo(1);\nclass A { b() { return 2 } }\n"}));
+      continue;
+    }
     jobs.push(json!({"k": "cli", "role": role, "files": files, "args": args}));
   }
   jobs
@@ -964,6 +973,10 @@ pub fn yaml_scan(ctx: &Ctx, rng: &mut Rng, o: &mut Out) {
   for w in super::yaml_gen::witnesses() {
     docs.push((w.into_bytes(), "witness", "rule"));
   }
+  // rule files that define no rule at all
+  for w in ["", "# nothing here\n", "---\n", "---\n---\n", "null\n", "\n\n", "---\n# c\n---\n"] {
+    docs.push((w.as_bytes().to_vec(), "witness", "rule"));
+  }
   // project configurations: every list / map empty, repeated, missing on disk, wrongly typed
   for w in [
     "ruleDirs: [rules]\nutilDirs: []\n",
@@ -1034,6 +1047,9 @@ pub fn yaml_scan(ctx: &Ctx, rng: &mut Rng, o: &mut Out) {
   let mut meta: Vec<(usize, String)> = vec![];
   for (i, (doc, _stream, role)) in docs.iter().enumerate() {
     let mut roles: Vec<&str> = vec![role];
+    if *role == "rule" && (i % 2 == 0 || *_stream == "witness") {
+      roles.push("rule-stdin");
+    }
     if i % 3 == 0 {
       for r in ["rule", "util", "test", "sgconfig"] {
         if r != *role {
